@@ -75,3 +75,15 @@ package platform
 //@   loop 1 invariant rangeindex < len(val(o)) && len(opts) == len(val(o))
 //@   loop 1 invariant forall j int :: 0 <= j && j <= rangeindex ==> opts[j] == optFor(val(o)[j])
 //@   loop 1 invariant forall j int :: rangeindex < j && j < len(opts) ==> opts[j] == nil
+
+// ---- C19 (c) / C17 (c): user options come after the platform's own options ------------------------------------------
+// platformOptsG: ghost output of AsOptions (the option list derived from the definition)
+//@ ghost platformOptsG []ref
+//@ func (*Platform).AsOptions
+//@   noverify
+//@   modifies platformOptsG, alloc()
+//@   ensures result == platformOptsG
+
+//@ func setDriver [C19 C17]
+//@   at call NewDriver#1 assert #user-options-after-platform-options arg1 === platformOptsG ++ opts
+//@   at call NewDriver#2 assert #user-options-after-platform-options arg1 === platformOptsG ++ opts
